@@ -7,6 +7,7 @@ CONSTANTS
   QSize = 2
   MaxNow = 7
   KF_C10_LostHandoff = FALSE
+  KF_Overtake = FALSE
   TtlPeek = FALSE
   Driver = FALSE
   KeepHist = TRUE
